@@ -79,8 +79,7 @@ def istft(z, /, window="boxcar", nperseg=256, noverlap=0, nfft=None):
     nperseg, noverlap, nfft = int(nperseg), int(noverlap), int(nfft)
 
     new_shape = (len(z), -1, nfft) + z.sample_shape[1:]
-    x = z.data.reshape(new_shape)
-    x *= nperseg
+    x = z.data.reshape(new_shape) * nperseg
 
     x = x.swapaxes(1, 2)
     x = np.fft.ifftshift(x, axes=(1,))
